@@ -187,9 +187,10 @@ def run_scripts(run, scripts, variants):
             if res is not None and meta:
                 apply_meta(run, title, v, script, res, meta)
 
-def kernel_tie(run, cfgs):
+ALL_PARTS = ("scalar", "v128ctr", "v128par", "v256ctr", "v256par")
+def kernel_tie(run, cfgs, parts=("scalar",)):
     import kernels as K
-    run.kernel_failures = K.check_kernels(run, list(cfgs))
+    run.kernel_failures = K.check_kernels(run, list(cfgs), parts)
 
 def p_c01(run):
     cfgs = ("native", "w32", "neutral") if run.tier == "quick" else tuple(C.CONFIGS)
@@ -215,6 +216,7 @@ def p_c03(run):
                     apply_meta(run, title, v, sc, res, mt)
 def p_c04(run):
     cfgs = ("native", "w32") if run.tier == "quick" else ("native", "w32", "noua", "nosimd", "neutral", "neutral32")
+    kernel_tie(run, ("native", "w32") if run.tier == "quick" else ("native", "w32", "neutral", "neutral32"))
     run_scripts(run, G.gen_c04(run.rng, run.tier), std_variants(run, cfgs))
 def p_c05(run):
     cfgs = ("native",) if run.tier == "quick" else ("native", "w32", "noua", "w32noua")
@@ -224,6 +226,7 @@ KNOWN = json.load(open(os.path.join(C.VERIF, "known_findings.json")))
 
 def p_c06(run):
     v = std_variants(run, ("native",))[0]
+    kernel_tie(run, ("native", "w32"), ALL_PARTS)
     for title, body, meta in G.gen_c06(run.rng, run.tier):
         kind = title.split()[0]
         bes = ["def", "v128", "v256"] if kind in ("c128", "p128") else ["def", "v128"]
@@ -280,6 +283,7 @@ def kf_c06_1_applies(lines, ln, res):
 
 def p_c07(run):
     cfgs = ("native",) if run.tier == "quick" else ("native", "w32", "noua", "w32noua")
+    kernel_tie(run, ("native", "w32"), ("scalar", "v128par", "v256par"))
     run_scripts(run, G.gen_c07(run.rng, run.tier), std_variants(run, cfgs))
 
 def p_c09(run):
